@@ -10,7 +10,7 @@ the real code by the correspondence run (`corpus/fswrite.txt`).
 namespace S3V.Findings.C19
 open S3V S3V.FsWrite S3V.C19
 
-/-! ## repaired by 2ee4116: `tmp-leftover:drop-at-create` (F-fswrite-2)
+/-! ## repaired by 156124b: `tmp-leftover:drop-at-create` (F-fswrite-2)
 
 Before the repair `prepare_file_write` awaited `tokio::fs::File::create(tmp)` (blocking pool) and constructed the `FileWriter`
 only afterwards: a request future dropped in between — the blocking task done or still in flight — left
@@ -92,7 +92,7 @@ theorem complete_done_fails_changes_nothing :
       (initSt none .old .old)).2.tmp = false := by decide
 
 /-- was `complete-metadata-early:drop-before-rename` (F-fswrite-9): abandoned at any position before the rename (here: one
-    part, positions 0 … 5; position 3, right after `create`, was `tmp-leftover:drop-at-create` until 2ee4116): previous
+    part, positions 0 … 5; position 3, right after `create`, was `tmp-leftover:drop-at-create` until 156124b): previous
     content, previous metadata, the upload record still there, no temporary file -/
 theorem complete_drop_before_rename_changes_nothing :
     ∀ k ∈ [0, 1, 2, 3, 4, 5],
